@@ -815,6 +815,84 @@ fn exec_c<C: Suite>(scen: &Scenario) -> Exec {
             }
         }
     }
+    // (3) degenerate but CONSISTENT material: commitment vectors of length 0 and 1 together with exactly the share that lies on
+    // them (the zero scalar for the empty vector: the empty sum is the identity = G*0) - through the dealer-share entry points
+    // and, after an honest part2, through part3 in one sender's slot
+    {
+        let id = cx.ids[0];
+        let c1 = sc_random_nonzero::<C>(&mut p);
+        let variants: Vec<(&str, Vec<Vec<u8>>, frost::Scalar<C>)> = vec![("an empty commitment and the zero share", vec![], zero::<C>()), ("a one-entry commitment and its constant share", vec![el_bytes::<C>(&base::<C>(c1)).unwrap()], c1)];
+        for (what, entries, share) in variants {
+            let Ok(cm) = VerifiableSecretSharingCommitment::<C>::deserialize(entries.iter()) else { continue };
+            rep.evaluations += 1;
+            rep.probe("targeted_degenerate_consistent_share");
+            let sh = SecretShare::<C>::new(id, share_from_scalar::<C>(&share), cm.clone());
+            let r = guarded(|| {
+                let _ = sh.verify();
+                let _ = KeyPackage::<C>::try_from(sh.clone());
+                for f in [Fmt::Bin, Fmt::Json] {
+                    if let Ok(s2) = enc(f, &sh).and_then(|b| dec::<SecretShare<C>>(f, &b)) {
+                        let _ = KeyPackage::<C>::try_from(s2);
+                    }
+                }
+                let _ = refresh::refresh_share::<C>(sh.clone(), &cx.kps[0]);
+                let ids: std::collections::BTreeSet<Identifier<C>> = cx.ids.iter().take(2).cloned().collect();
+                let _ = PublicKeyPackage::<C>::from_commitment(&ids, &cm);
+            });
+            if let Err(msg) = r {
+                return Exec::Violation(Violation::new("C14", "C14.panic", format!("a dealer share made of {what} (verify / KeyPackage::try_from / refresh_share / from_commitment): PANIC {msg}")), rep);
+            }
+        }
+        // part3 after an honest part2: one sender's round-one package replaced by (empty commitment, that sender's real proof) and its
+        // round-two share by the zero scalar
+        let n = (scen.n as usize).clamp(2, 4);
+        let tt = scen.t.min(n as u16).max(2);
+        let dids: Vec<Identifier<C>> = cx.ids.iter().take(n).cloned().collect();
+        if dids.len() == n {
+            let mut secs = Vec::new();
+            let mut r1: BTreeMap<Identifier<C>, dkg::round1::Package<C>> = BTreeMap::new();
+            for (k, id) in dids.iter().enumerate() {
+                let rng = SimRng::good(stream(scen.seed, scen.run, &format!("c14/degenerate/part1/{k}")));
+                if let Ok((sec, pkg)) = dkg::part1::<C, _>(*id, n as u16, tt, rng) {
+                    secs.push(sec);
+                    r1.insert(*id, pkg);
+                }
+            }
+            if secs.len() == n {
+                let mut others = r1.clone();
+                others.remove(&dids[0]);
+                if let Ok((s2, _)) = dkg::part2::<C>(secs[0].clone(), &others) {
+                    // the shares the others would send to participant 0
+                    let mut r2: BTreeMap<Identifier<C>, dkg::round2::Package<C>> = BTreeMap::new();
+                    for k in 1..n {
+                        let mut o = r1.clone();
+                        o.remove(&dids[k]);
+                        if let Ok((_, out)) = dkg::part2::<C>(secs[k].clone(), &o) {
+                            if let Some(pk0) = out.get(&dids[0]) {
+                                r2.insert(dids[k], pk0.clone());
+                            }
+                        }
+                    }
+                    if r2.len() == n - 1 {
+                        if let Ok(empty) = VerifiableSecretSharingCommitment::<C>::deserialize(Vec::<Vec<u8>>::new().iter()) {
+                            let bad_sender = dids[1];
+                            let mut o1 = others.clone();
+                            o1.insert(bad_sender, dkg::round1::Package::new(empty, *r1[&bad_sender].proof_of_knowledge()));
+                            let mut o2 = r2.clone();
+                            o2.insert(bad_sender, dkg::round2::Package::new(share_from_scalar::<C>(&zero::<C>())));
+                            rep.evaluations += 1;
+                            rep.probe("targeted_degenerate_part3");
+                            if let Err(msg) = guarded(|| {
+                                let _ = dkg::part3::<C>(&s2, &o1, &o2);
+                            }) {
+                                return Exec::Violation(Violation::new("C14", "C14.panic", format!("dkg::part3 given, in one sender's slots, an empty commitment and the zero share (part2 had seen the honest package): PANIC {msg}")), rep);
+                            }
+                        }
+                    }
+                }
+            }
+        }
+    }
     rep.probe_n("decoder_inputs", decodes);
     rep.nontrivial = true;
     rep.sample = Some(json!({"suite": scen.suite, "n": scen.n, "t": scen.t, "decoder_inputs": decodes, "decoders": names, "entry_point_calls": calls * CALLS.len(), "mutated_values_that_still_decoded": adv_bytes.values().map(|v| v.len()).sum::<usize>()}));
